@@ -1005,7 +1005,6 @@ def replay(doc):
         print('cmd %s code=%02X len=%d ->' % (chip, code, len(payload)), v)
         return 1 if v else 0
     if part in ('rsp', 'tty'):
-        import errno
         h = RspHarness(d['chip'], 'tty' if part == 'tty' else 'usb')
         seq = []
         for x in d['script']:
